@@ -31,7 +31,7 @@ RULE = ('one evaluation = one sampled cache (Cache or FanoutCache shards; 4-14 i
         'remaining item is read back and compared; non-trivial = at least one damage item applied; distinct = SHA-256 of (cache '
         'program, damage list)')
 ASSUMPTIONS = ['damage is applied while no operation is in flight', 'truncation of text happens on a code-point boundary and extension appends ASCII, except in the low-rate probe of known finding F14']
-PROBES = ('damage_items', 'fanout_runs', 'rows_removed_by_fix', 'f14_probe', 'dir_spelled_dot', 'dir_spelled_double', 'dir_spelled_trailing', 'dir_spelled_dotdot', 'dir_spelled_relative', 'more_than_100_file_rows', 'journal_mode_not_wal', 'mass_loss')
+PROBES = ('damage_items', 'fanout_runs', 'rows_removed_by_fix', 'f14_probe', 'dir_spelled_dot', 'dir_spelled_double', 'dir_spelled_trailing', 'dir_spelled_dotdot', 'dir_spelled_relative', 'more_than_100_file_rows', 'journal_mode_not_wal', 'mass_loss', 'unknown_hidden_name')
 TECHNIQUE = 'deterministic simulation with out-of-band damage injection: damage-kind subsets enumerated per sampled cache; report / convergence / undamaged-intact oracle with an independent auditor'
 LEVEL_TEXT = ('fault enumeration over damage-kind subsets: caches are sampled by seed, and for each cache every non-empty subset of the '
               'seven damage kinds is applied (thorough tier); the oracle knows exactly what it damaged and compares the two warning lists per '
@@ -221,6 +221,21 @@ def run_case(case):
                     rel = os.path.join('zz', 'y%d' % d['arg'], 'orphan.val')
                 else:
                     rel = os.path.join(os.path.dirname(rows[0][10]), 'orphan%d.val' % d['arg'])
+                # what other tools leave behind: hidden names (a killed rsync's partial copy, .nfs files), backup and
+                # extension-less names - whatever it is called, a file no row refers to is an unknown file
+                style = d['arg'] % 5
+                head, base = os.path.split(rel)
+                if style == 1:
+                    base = '.' + base + '.Xy12Zq'
+                elif style == 2:
+                    base = '.nfs%012x' % d['arg']
+                elif style == 3:
+                    base = base + '~'
+                elif style == 4 and d['where'] == 'nested':
+                    head = os.path.join('.hidden', 'y%d' % d['arg'])
+                rel = os.path.join(head, base)
+                if style in (1, 2) or (style == 4 and d['where'] == 'nested'):
+                    probes['unknown_hidden_name'] = 1
                 full = os.path.join(root, rel)
                 if os.path.exists(full):
                     continue
@@ -377,6 +392,10 @@ def run_seed(seed, tier):
     for i, kinds in enumerate(subsets):
         c = copy.deepcopy(case)
         c['damage'] = gen_damage(rng, kinds)
+        if seed % 23 == 7 and i in (1, 2) and '_env' not in c:
+            # the report is made of Python warnings: a process that silences warnings, or turns them into errors, gets the
+            # same report and the same repair (two damage subsets of one seed in 23 run in such an interpreter)
+            c['_env'] = ('wignore', 'werror')[i - 1]
         r = runner_guarded(PROPERTY, run_case, copy.deepcopy(c))
         r['case'] = c
         r['first_of_seed'] = i == 0
